@@ -61,9 +61,48 @@ func VerifC29WipeTable(db *sql.DB) error {
 	return err
 }
 
-// VerifC29Table returns node id -> state for the whole table, read through db.
-func VerifC29Table(db *sql.DB) (map[string]string, error) {
-	rows, err := db.Query(`SELECT node_id, state FROM cluster`)
+// VerifC29Restore puts a node's row back to "active" with its original
+// last_seen stamp (harness reset between histories; prepared once).
+type VerifC29Stmts struct {
+	restore *sql.Stmt
+	table   *sql.Stmt
+}
+
+// VerifC29Prepare prepares the two harness statements on db.
+func VerifC29Prepare(db *sql.DB) (*VerifC29Stmts, error) {
+	var (
+		s   VerifC29Stmts
+		err error
+	)
+
+	if s.restore, err = db.Prepare(`UPDATE cluster SET state = 'active', last_seen = ? WHERE node_id = ?`); err != nil {
+		return nil, err
+	}
+
+	if s.table, err = db.Prepare(`SELECT node_id, state FROM cluster`); err != nil {
+		return nil, err
+	}
+
+	return &s, nil
+}
+
+// VerifC29Restore resets one node's row.
+func (s *VerifC29Stmts) VerifC29Restore(n *VerifC29Node) error {
+	res, err := s.restore.Exec(n.Member.LastSeen, n.ID)
+	if err != nil {
+		return err
+	}
+
+	if c, _ := res.RowsAffected(); c != 1 {
+		return sql.ErrNoRows
+	}
+
+	return nil
+}
+
+// VerifC29Table returns node id -> state for the whole table.
+func (s *VerifC29Stmts) VerifC29Table() (map[string]string, error) {
+	rows, err := s.table.Query()
 	if err != nil {
 		return nil, err
 	}
